@@ -32,8 +32,42 @@ static int vh_sb_sprintf(char* out, const char* fmt, ...) {
     else if (sm_fmt_is(fmt, "%016llX")) n = sm_put_unsigned(out, va_arg(ap, unsigned long long), 16, 1, 16);
     else if (sm_fmt_is(fmt, "%.9g")) { int k; (void)SM_F32_ARG(ap); n = 16; for (k = 0; k < n; k++) out[k] = '9'; }       /* -d.dddddddde-dd : at most 16 characters */
     else if (sm_fmt_is(fmt, "%.17g")) { int k; (void)va_arg(ap, double); n = 24; for (k = 0; k < n; k++) out[k] = '9'; }      /* -d.dddddddddddddddde-ddd : at most 24 characters */
-    else { OBL(0, "sprintf model: unknown format in stringbuilder.c"); }
+    else { OBL(0, "TOOL-LIMIT sprintf model: a format this model does not know (nothing can be said about the output)"); }
     out[n] = 0; va_end(ap);
     return n;
 }
+/* General form for calls with more than one conversion (arguments captured by value as long long, strings as pointers): flags 0, a
+ * decimal width, length modifier ll, conversions u i d X s c.  Used through the sprintf macro of the harness (VH_SPRINTF below). */
+static int vh_sb_sprintf_ll(char* out, const char* fmt, int nargs, long long a1, long long a2, long long a3, long long a4, long long a5) {
+    long long args[5]; int ai = 0, n = 0; size_t i = 0; args[0] = a1; args[1] = a2; args[2] = a3; args[3] = a4; args[4] = a5;
+    while (fmt[i]) {
+        int zero = 0, width = 0, ll = 0; long long v;
+        if (fmt[i] != '%') { out[n++] = fmt[i++]; continue; }
+        i++;
+        if (fmt[i] == '0') { zero = 1; i++; }
+        while (fmt[i] >= '0' && fmt[i] <= '9') { width = width * 10 + (fmt[i] - '0'); i++; }
+        while (fmt[i] == 'l') { ll++; i++; }
+        if (ai >= nargs || ai >= 5) { OBL(0, "TOOL-LIMIT sprintf model: more conversions than captured arguments"); break; }
+        v = args[ai++];
+        if (fmt[i] == 'u') n += sm_put_unsigned(out + n, ll ? (unsigned long long)v : (unsigned long long)(unsigned)v, 10, 0, zero ? width : 1);
+        else if (fmt[i] == 'i' || fmt[i] == 'd') { long long sv = ll ? v : (long long)(int)v; unsigned long long u = (unsigned long long)sv; if (sv < 0) { out[n++] = '-'; u = 0ull - u; } n += sm_put_unsigned(out + n, u, 10, 0, zero ? width : 1); }
+        else if (fmt[i] == 'X') n += sm_put_unsigned(out + n, ll ? (unsigned long long)v : (unsigned long long)(unsigned)v, 16, 1, zero ? width : 1);
+        else if (fmt[i] == 'c') out[n++] = (char)v;
+        else if (fmt[i] == 's') { const char* sp = (const char*)(size_t)v; size_t k = 0; while (sp[k]) out[n++] = sp[k++]; }
+        else { OBL(0, "TOOL-LIMIT sprintf model: a conversion this model does not know"); break; }
+        i++;
+    }
+    out[n] = 0;
+    return n;
+}
+#define VH_SPR_NARG_(_1, _2, _3, _4, _5, N, ...) N
+#define VH_SPR_NARG(...) VH_SPR_NARG_(__VA_ARGS__, 5, 4, 3, 2, 1, 0)
+#define VH_SPR_CAT_(a, b) a##b
+#define VH_SPR_CAT(a, b) VH_SPR_CAT_(a, b)
+#define VH_SPR_1(b, f, v) vh_sb_sprintf(b, f, +(v))
+#define VH_SPR_2(b, f, x1, x2) vh_sb_sprintf_ll(b, f, 2, (long long)(x1), (long long)(x2), 0LL, 0LL, 0LL)
+#define VH_SPR_3(b, f, x1, x2, x3) vh_sb_sprintf_ll(b, f, 3, (long long)(x1), (long long)(x2), (long long)(x3), 0LL, 0LL)
+#define VH_SPR_4(b, f, x1, x2, x3, x4) vh_sb_sprintf_ll(b, f, 4, (long long)(x1), (long long)(x2), (long long)(x3), (long long)(x4), 0LL)
+#define VH_SPR_5(b, f, x1, x2, x3, x4, x5) vh_sb_sprintf_ll(b, f, 5, (long long)(x1), (long long)(x2), (long long)(x3), (long long)(x4), (long long)(x5))
+#define VH_SPRINTF(b, f, ...) VH_SPR_CAT(VH_SPR_, VH_SPR_NARG(__VA_ARGS__))(b, f, __VA_ARGS__)
 #endif
